@@ -31,7 +31,7 @@ from harness.lib import coqbuild, gcsim
 from harness.props import c05 as h5
 
 LEVEL = "proof"
-THEOREMS = ["C07_fail_closed"]
+THEOREMS = ["C07_fail_closed", "C07_damage", "C07_transient", "C07_marker_keep"]
 REQ = gcsim.REQ
 TIMEOUT_MS = h5.TIMEOUT_MS
 
@@ -320,7 +320,7 @@ def make_specs(ctx) -> List[Dict[str, Any]]:
     graces = [0] if quick else [0, 3600000]
     for vi, v in enumerate(variants):
         for g in graces:
-            specs.append(dict(v, seed=ctx.rng.randrange(1 << 30), grace=g, all_kinds=(not quick) or vi in (1, 2), pairs=0 if quick else 250,
+            specs.append(dict(v, seed=ctx.rng.randrange(1 << 30), grace=g, all_kinds=True, pairs=0 if quick else 250,
                               base=os.path.join(ctx.scratch, f"f{vi}_{g}")))
     return specs
 
